@@ -1,5 +1,7 @@
 (* driver for the C12 (engine polling loops) correspondence runner.
    Every command starts with FX = stop rule (1 = current /repo rule).
+   CODE = signed return code of the program (-N = killed by signal N), STRICT = failure test on it
+   (1 = `!= 0` as in /repo, 0 = the variant `> 0`).
    Common tokens:  ORD  = p:v:b:o,...   (order table)     TRAJ = p:v:b,...  (one conf per frame)
    Answer: KIND success pstate o:idx:rev,...      KIND in RET TRUNC RAISE IDXERR HANG *)
 let conf_of_string s =
@@ -30,22 +32,22 @@ let triple3 f g h s = match String.split_on_char ':' s with
 
 let handle toks =
   match toks with
-  | ["lammps"; fx; fix; rv; l; r; ml; code; dead; traj; ordt; reads] ->
+  | ["lammps"; fx; fix; rv; l; r; ml; code; strict; dead; traj; ordt; reads] ->
     string_of_result
       (lammps_run (bool_of_string_ fx) (ord_of_string ordt) (z_of_string l) (z_of_string r) (bool_of_string_ rv)
-         (list_of_string conf_of_string traj) (z_of_string code) (bool_of_string_ fix)
+         (list_of_string conf_of_string traj) (z_of_string code) (bool_of_string_ strict) (bool_of_string_ fix)
          (empty_path (nat_of_string ml) Z0) (bool_of_string_ dead)
          (list_of_string (pair2 nat_of_string bool_of_string_) reads))
-  | ["cp2k"; fx; rv; l; r; ml; code; dead; box0; traj; ordt; reads] ->
+  | ["cp2k"; fx; rv; l; r; ml; code; strict; dead; box0; traj; ordt; reads] ->
     string_of_result
       (cp2k_run (bool_of_string_ fx) (ord_of_string ordt) (z_of_string l) (z_of_string r) (bool_of_string_ rv)
-         (list_of_string conf_of_string traj) (z_of_string code) (z_of_string box0)
+         (list_of_string conf_of_string traj) (z_of_string code) (bool_of_string_ strict) (z_of_string box0)
          (empty_path (nat_of_string ml) Z0) (bool_of_string_ dead)
          (list_of_string (triple3 nat_of_string nat_of_string bool_of_string_) reads))
-  | ["gromacs"; fx; fix; fix14; rv; l; r; ml; code; dead; hsz; dsz; head0; fin; traj; ordt; eps] ->
+  | ["gromacs"; fx; fix; fix14; rv; l; r; ml; code; strict; dead; hsz; dsz; head0; fin; traj; ordt; eps] ->
     string_of_result
       (gromacs_run (bool_of_string_ fx) (ord_of_string ordt) (z_of_string l) (z_of_string r) (bool_of_string_ rv)
-         (list_of_string conf_of_string traj) (z_of_string code) (bool_of_string_ fix) (bool_of_string_ fix14)
+         (list_of_string conf_of_string traj) (z_of_string code) (bool_of_string_ strict) (bool_of_string_ fix) (bool_of_string_ fix14)
          (nat_of_string hsz) (nat_of_string dsz) (nat_of_string head0) (nat_of_string fin)
          (empty_path (nat_of_string ml) Z0) (bool_of_string_ dead)
          (list_of_string nat_of_string eps))
